@@ -303,11 +303,16 @@ fn explore(ctx: &Ctx) -> Outcome {
         let t = chars
             .par_iter()
             .fold(Tally::new, |mut t, ch| {
-                for shape in 0..3 {
+                let shapes = if cfg.fmt == Fmt::ShiftJis { 7 } else { 3 };
+                for shape in 0..shapes {
                     let m = match shape {
                         0 => ch.to_string(),
                         1 => format!("x{}", ch),
-                        _ => format!("{}x", ch),
+                        2 => format!("{}x", ch),
+                        3 => format!("{}n", ch),
+                        4 => format!("{}{}", ch, ch),
+                        5 => format!("{}ソ", ch),
+                        _ => format!("ﾂ{}", ch),
                     };
                     if has_backslash_n(&m) {
                         continue;
@@ -322,7 +327,7 @@ fn explore(ctx: &Ctx) -> Outcome {
                 t
             })
             .reduce(Tally::new, Tally::merge);
-        layers.push(json!({"family": "single-character sweep c / xc / cx", "fmt": format!("{:?}", cfg.fmt), "endian": format!("{:?}", cfg.e), "characters": chars.len(), "completed": true}));
+        layers.push(json!({"family": "single-character sweep c / xc / cx (Shift-JIS also cn / cc / cソ / ﾂc)", "fmt": format!("{:?}", cfg.fmt), "endian": format!("{:?}", cfg.e), "characters": chars.len(), "completed": true}));
         total.absorb(t);
     }
     // family 4: load → edit → save
@@ -367,6 +372,59 @@ fn explore(ctx: &Ctx) -> Outcome {
         layers.push(json!({"family": "a fixed series of failing parses/decompressions on the same thread right before the case", "cases": t.cases, "completed": true}));
         total.absorb(t);
     }
+    // family 7: the shared tricky-string catalogue in every role, collation-inverted key pairs,
+    // dense sweeps of message length and entry count
+    let mut f7: Vec<Case> = Vec::new();
+    {
+        let tricky = sjis::tricky_strings();
+        let (dl, dn) = ctx.tier.pick((300usize, 300usize), (1300, 1100));
+        for cfg in CFGS {
+            for (i, s) in tricky.iter().enumerate() {
+                let other = &tricky[(i + 1) % tricky.len()];
+                if has_backslash_n(s) || has_backslash_n(other) {
+                    // as a key or title it is fine, as a message it cannot be set
+                    f7.push(Case { cfg, title: s.clone(), entries: vec![(s.clone(), "m".into()), (format!("MID_{}", other), "".into())], loaded: None });
+                    continue;
+                }
+                f7.push(Case { cfg, title: s.clone(), entries: vec![(s.clone(), other.clone()), (format!("MID_{}", other), s.clone())], loaded: None });
+            }
+            for (a, b) in sjis::collation_inversions() {
+                for swap in [false, true] {
+                    let (x, y) = if swap { (b.clone(), a.clone()) } else { (a.clone(), b.clone()) };
+                    f7.push(Case { cfg, title: "t".into(), entries: vec![(format!("MPID_{}", x), "1".into()), (format!("MPID_{}", y), "2".into()), (x.clone(), y.clone())], loaded: None });
+                }
+            }
+            for k in 0..=dl {
+                let unit = if cfg.fmt == Fmt::Unicode { "aé日😀" } else { "a日ｿソn" };
+                let m: String = unit.chars().cycle().take(k).collect();
+                if has_backslash_n(&m) {
+                    continue;
+                }
+                let key: String = "K".to_string() + &"kｷ".chars().cycle().take(k).collect::<String>();
+                f7.push(Case { cfg, title: "abcd".chars().cycle().take(k % 9).collect(), entries: vec![("before".into(), "b".into()), (key, m), ("after".into(), "a".into())], loaded: None });
+            }
+            for n in 0..=dn {
+                f7.push(Case { cfg, title: "n".into(), entries: (0..n).map(|i| (format!("M{}", i), if i % 2 == 0 { "xy".to_string() } else { "".to_string() })).collect(), loaded: None });
+            }
+        }
+    }
+    let t = f7
+        .par_iter()
+        .fold(Tally::new, |mut t, c| {
+            t.cases += 1;
+            t.nontrivial += 1;
+            if let Some((sig, summary)) = judge(c, &mut t) {
+                let mut cj = case_json(c);
+                if c.entries.len() > 6 {
+                    cj = json!({"dense_entries": c.entries.len(), "fmt": format!("{:?}", c.cfg.fmt), "endian": format!("{:?}", c.cfg.e)});
+                }
+                t.violate(sig, summary.chars().take(500).collect::<String>(), cj);
+            }
+            t
+        })
+        .reduce(Tally::new, Tally::merge);
+    layers.push(json!({"family": "tricky-string catalogue as key/title/message; collation-inverted key pairs; DENSE sweeps: every message/key length and every entry count from 0", "cases": f7.len(), "completed": true}));
+    total.absorb(t);
     // family 5: scale — long messages and many entries (widths beyond 8 and 16 bits)
     let f5 = scale_cases();
     let t = f5
@@ -436,6 +494,13 @@ fn replay(ctx: &Ctx, case: &Value) -> Vec<Violation> {
         // scale cases are regenerated: re-run the whole (small) scale family
         let o = explore_scale_only(ctx);
         return o;
+    }
+    if let Some(n) = case["dense_entries"].as_u64() {
+        let fmt = if case["fmt"] == "ShiftJis" { Fmt::ShiftJis } else { Fmt::Unicode };
+        let e = if case["endian"] == "Big" { End::Big } else { End::Little };
+        let c = Case { cfg: Cfg { fmt, e }, title: "n".into(), entries: (0..n).map(|i| (format!("M{}", i), if i % 2 == 0 { "xy".to_string() } else { "".to_string() })).collect(), loaded: None };
+        let mut t = Tally::new();
+        return judge(&c, &mut t).map(|(sig, summary)| vec![Violation { sig, summary, case: case.clone() }]).unwrap_or_default();
     }
     let c = case_from_json(case);
     let mut t = Tally::new();
